@@ -45,6 +45,7 @@ def decide(ctx, trace):
                 "NoPanic": "loading crashes",
                 "AcceptedValid": "the loader accepts a configuration that Validate() rejects",
                 "Stable": "the saved form of the loaded configuration does not load back to itself",
+                "PathReproduced": "a configured path is saved back as a different (resolved) value",
                 "NotDropped": "a well-formed value is accepted and then %s" % (
                     "silently replaced by the default" if f.get("rel") == "default" else "missing from the saved configuration"),
             }[law]
